@@ -114,7 +114,7 @@ def parseList? (f : String → Option Token) (s : String) : Option (List Token) 
   if s == "-" then some [] else (s.splitOn ";").mapM f
 
 def runTokens (toks : List Token) : String :=
-  match run TbCfg.code State.init toks with
+  match run TbCfg.current State.init toks with
   | .ok s => dumpState s
   | .error e => "PANIC " ++ e
 
@@ -125,7 +125,7 @@ def runCase (fields : List String) : String :=
     | some ts => runTokens ts
     | none => "bad-case"
   | ["src", _chunks, raw] =>
-    match parseList? (parseRawToken? TokCfg.code) raw with
+    match parseList? (parseRawToken? TokCfg.current) raw with
     | some ts => runTokens ts
     | none => "bad-case"
   | _ => "bad-case"
